@@ -768,12 +768,21 @@ func (g *gen) caseBody(d int, last bool) []Stmt {
 // ---- exception fragment (C05) ----
 
 func (g *gen) genClasses() {
-	ni := g.intn(0, 2, "nifaces")
+	ni := g.intn(0, 3, "nifaces")
 	var ifs []string
 	for i := 0; i < ni; i++ {
 		n := fmt.Sprintf("Mk%d", i)
+		cd := ClassDecl{Name: n, IsIface: true}
+		// an interface may extend earlier ones: a class is then caught through an interface that none
+		// of its ancestors names directly
+		for _, f := range ifs {
+			if g.chance(40, "iext") {
+				cd.Interfaces = append(cd.Interfaces, f)
+				g.feat("interface.extends")
+			}
+		}
 		ifs = append(ifs, n)
-		g.p.Classes = append(g.p.Classes, ClassDecl{Name: n, IsIface: true})
+		g.p.Classes = append(g.p.Classes, cd)
 	}
 	nc := g.intn(1, 5, "nexc")
 	names := []string{"Exception"}
